@@ -199,6 +199,34 @@ pub fn finish_sweep(prop: &mut dyn Prop, tier: Tier, rr: &RunResult) -> i32 {
     }
 }
 
+/// `run_parent` failed before any case ran. If the code under test (a file of the repository) panicked while the
+/// honest baseline was executed, that is a violation of the property at hand (conforming input made the client
+/// panic); every other failure is machinery. Returns the exit code.
+pub fn baseline_failure(id: &str, tier: Tier, e: &str) -> i32 {
+    if let Some(p) = e.strip_prefix(crate::runner::BASELINE_PANIC) {
+        let sig = format!("baseline-panic@{}", crate::runner::panic_sig(p));
+        let in_repo = !sig.contains("vcheck/src") && !sig.contains("vref/src") && !sig.contains("vgui/src") && (sig.contains("@src/") || sig.contains("/src/"));
+        if in_repo {
+            let path = write_replay(id, tier, &sig, json!({"baseline": true, "detail": p, "how_to_replay": "the honest baseline of the check itself panics inside the library: run the check"}));
+            println!("VIOLATION property={} replay={}", id, path);
+            println!("  sig: {}", sig);
+            println!("  detail: the honest baseline conversation / call of this check panics inside the library: {}", p);
+            write_evidence(&Evidence {
+                property: id.to_string(),
+                tier,
+                level: "exploration".into(),
+                coverage: json!({"evaluations": 1, "distinct_nontrivial": 0, "rule": "the honest baseline panicked before the enumeration could be built", "samples": [], "exhaustive": false, "violations_detail": [{"sig": sig, "detail": p}]}),
+                assumptions: vec![],
+                wall_s: 0.0,
+                violations: 1,
+            });
+            return 1;
+        }
+    }
+    println!("MACHINERY-ERROR property={} {}", id, e);
+    2
+}
+
 fn top(m: &BTreeMap<String, u64>, n: usize) -> Value {
     let mut v: Vec<(&String, &u64)> = m.iter().collect();
     v.sort_by(|a, b| b.1.cmp(a.1));
